@@ -21,24 +21,32 @@ ANCHORS = (
     "xgi/convert/hypergraph_dict.py",
 )
 RULE = (
-    "case kinds: hif = one seeded network (class = idx mod 3; isolated nodes, empty edges, multi-edges, explicit/automatic int and str IDs, "
+    "case kinds: hif = seeded networks (class = idx mod 3; isolated nodes, empty edges, multi-edges, explicit/automatic int, str and non-ASCII IDs, "
     "JSON-representable node/edge/network attributes incl. nested lists/dicts) through write_hif/read_hif x ID casts; hif-collection and json-collection = "
-    "1-3 networks as list or dict x collection_name; json = one Hypergraph through write_json/read_json x nodetype/edgetype casts (5% with colliding "
-    "string casts: must be refused); edgelist / bipartite = Hypergraph or SimplicialComplex (no empty edges) x 6 delimiters x nodetype/edgetype in "
-    "{None, int, str} (x dual); incidence = such a network, or a 1 x m / n x 1 / 1 x 1 one, x 5 single-character delimiters. one evaluation = one "
-    "comparison of a re-read network with the written one. distinct_nontrivial = distinct (format, options, written structure) with at least one incidence"
+    "1-3 networks as list or dict x collection_name (20 % with one object under two names); json = Hypergraphs through write_json/read_json x nodetype/edgetype "
+    "casts (5 % with colliding string casts: must be refused); edgelist / bipartite = Hypergraph or SimplicialComplex (no empty edges) x 6 delimiters x "
+    "nodetype/edgetype in {None, int, str} (x dual) x encoding in {omitted, utf-8, latin-1, cp1252} (same on both sides; 30-55 % of the label families non-ASCII) "
+    "x comments in {omitted, '#', '%', '//', None} (labels containing '#' only under the last three) x create_using in {omitted, class, instance}; incidence = such "
+    "a network, or a 1 x m / n x 1 / 1 x 1 one, x 5 single-character delimiters x the same encoding/comments/create_using options. EVERY case is a session on "
+    "one path: write A, read, compare; in 35 % deface the returned network and read the same file again; then write a different network B (same class and label "
+    "family) to the same path, read, compare with B. one evaluation = one comparison of a re-read network with the written one. "
+    "distinct_nontrivial = distinct (format, step, options, written structure) with at least one incidence"
 )
 ASSUMPTIONS = [
-    "labels: int or str without whitespace, '#' or any of the delimiters; attribute names are identifiers; attribute values are what JSON represents faithfully "
-    "(str, int, finite float, bool, None, lists, string-keyed dicts) and are compared type-strictly",
+    "labels: int or str without whitespace or any of the delimiters, without '#' unless the reader is given another comment token, every character representable in the "
+    "encoding in use; attribute names are identifiers; attribute values are what JSON represents faithfully (str, int, finite float, bool, None, lists, string-keyed "
+    "dicts) and are compared type-strictly",
     "inputs failing the C01/C02/C03 structural invariant are discarded and counted (invalid-start-state)",
     "write_json/read_json are driven with Hypergraph only (the statement says undirected hypergraphs); text formats with Hypergraph and SimplicialComplex "
     "(the writers list members without direction), never with empty edges (no representation), compared on incidences only: edge-list and matrix files "
     "position for position, bipartite files under the cast labels",
     "a SimplicialComplex read back from an edge list *into a SimplicialComplex* is compared as a family of member sets (add_simplex numbers faces itself)",
-    "the reader is always given the delimiter the writer used (None only for whitespace delimiters); the matrix format is not driven with '::' "
-    "(the docstrings say 'char' and numpy.loadtxt refuses longer delimiters) nor with 0 x 0 matrices (an empty file)",
-    "a collection written from a list is keyed by str(position) when read back (JSON object keys)",
+    "the reader is always given the delimiter, encoding and comment token the writer's file needs (delimiter None only for whitespace delimiters); the matrix format "
+    "is not driven with '::' (the docstrings say 'char' and numpy.loadtxt refuses longer delimiters) nor with 0 x 0 matrices (an empty file)",
+    "create_using is only ever a Hypergraph class or a fresh empty instance for the bipartite and matrix readers (they build with add_node_to_edge), any of the two "
+    "undirected classes for the edge-list reader",
+    "a collection written from a list is keyed by str(position) when read back (JSON object keys); a rewritten collection reuses container kind, names and collection_name",
+    "the sequence write-read-write-read on one path within one process is part of 'what is written reads back': the second read must show the second network",
 ]
 TECHNIQUE = "runtime monitoring: write/read round-trip post-condition monitors on files in a temporary directory"
 CASE_TIMEOUT = 60
@@ -47,9 +55,11 @@ UND = ("Hypergraph", "SimplicialComplex")
 DELIMS = (" ", ",", "\t", ";", "|", "::")
 DNAME = {" ": "space", ",": "comma", "\t": "tab", ";": "semicolon", "|": "bar", "::": "double-colon"}
 SHAPES = ("general", "single-row", "single-column", "single-entry")
+ENCODINGS = (None, "utf-8", "latin-1", "cp1252")   # None = the parameter is left out (documented default utf-8)
+COMMENTS = ("default", "#", "%", "//", None)        # "default" = the parameter is left out (documented default '#')
 
 
-QUICK = {"hif": 7500, "hif-collection": 2000, "json": 3500, "json-collection": 1500, "edgelist": 6000, "bipartite": 6000, "incidence": 6000}
+QUICK = {"hif": 6000, "hif-collection": 1500, "json": 2800, "json-collection": 1100, "edgelist": 4500, "bipartite": 4500, "incidence": 4500}
 
 
 def plan(tier):
@@ -57,34 +67,47 @@ def plan(tier):
 
 
 def floors(tier):
-    """Quick floors are about half of what seed 0 shows on the current tree (open findings cut the matrix reader short); thorough = 35 x for 40 x the cases."""
+    """Quick floors are 50-60 % of what seed 0 shows on a tree without open findings; thorough = 35 x for 40 x the cases."""
     k = 1 if tier == "quick" else 35
     f = {}
     for c in O.CLASSES:
-        f[f"read_hif:{c}"] = 1500 * k
+        f[f"read_hif:{c}"] = 2500 * k
     for c in UND:
-        f[f"read_edgelist:{c}"] = 1500 * k
-        f[f"read_bipartite_edgelist:{c}"] = 1500 * k
-        f[f"read_incidence_matrix:{c}"] = 400 * k
+        f[f"read_edgelist:{c}"] = 2800 * k
+        f[f"read_bipartite_edgelist:{c}"] = 2800 * k
+        f[f"read_incidence_matrix:{c}"] = 2800 * k
     for d in DELIMS:
-        f[f"edgelist:delim:{DNAME[d]}"] = 500 * k
-        f[f"bipartite:delim:{DNAME[d]}"] = 500 * k
+        f[f"edgelist:delim:{DNAME[d]}"] = 400 * k
+        f[f"bipartite:delim:{DNAME[d]}"] = 400 * k
         if len(d) == 1:
-            f[f"incidence:delim:{DNAME[d]}"] = 600 * k
-    f.update({"incidence:shape:general": 800 * k, "incidence:shape:single-row": 400 * k, "incidence:shape:single-column": 500 * k, "incidence:shape:single-entry": 700 * k})
-    for t in ("none-str", "int", "str"):
-        f[f"cast:{t}"] = 4000 * k
+            f[f"incidence:delim:{DNAME[d]}"] = 500 * k
+    for fmt in ("edgelist", "bipartite", "incidence"):
+        for e in ENCODINGS:
+            f[f"{fmt}:encoding:{e}"] = 600 * k
+        for cm in COMMENTS:
+            f[f"{fmt}:comments:{cm}"] = 450 * k
+    f.update({"incidence:shape:general": 900 * k, "incidence:shape:single-row": 300 * k, "incidence:shape:single-column": 500 * k, "incidence:shape:single-entry": 700 * k})
+    f.update({"cast:none-str": 4000 * k, "cast:int": 2400 * k, "cast:str": 4000 * k})
+    for r, n, m in (("read_hif", 1000, 3000), ("read_hif_collection", 250, 800), ("read_json", 650, 1900), ("read_edgelist", 800, 2200),
+                    ("read_bipartite_edgelist", 800, 2200), ("read_incidence_matrix", 800, 2000)):
+        f[f"reread:{r}"] = n * k
+        f[f"rewrite:{r}:distinct"] = m * k
     f.update({
-        "read_json:Hypergraph": 2000 * k, "rejected:colliding-cast": 100 * k, "bipartite:dual": 1200 * k,
-        "hif-collection:list": 500 * k, "hif-collection:dict": 500 * k, "json-collection:list": 400 * k, "json-collection:dict": 400 * k,
-        "collection:members-read": 3500 * k, "feat:isolated-node": 2000 * k, "feat:empty-edge": 1800 * k, "feat:multi-edge": 3000 * k,
-        "feat:explicit-id": 10000 * k, "feat:node-attrs": 5000 * k, "feat:edge-attrs": 7000 * k, "feat:net-attrs": 5000 * k,
-        "tempdirs-removed": 30000 * k,
+        "read_json:Hypergraph": 3500 * k, "rejected:colliding-cast": 100 * k, "bipartite:dual": 1000 * k,
+        "hif-collection:list": 400 * k, "hif-collection:dict": 400 * k, "json-collection:list": 300 * k, "json-collection:dict": 300 * k,
+        "collection:members-read": 6000 * k, "collection:repeated-member": 350 * k, "feat:isolated-node": 3200 * k, "feat:empty-edge": 3200 * k,
+        "feat:multi-edge": 5000 * k, "feat:explicit-id": 19000 * k, "feat:node-attrs": 9000 * k, "feat:edge-attrs": 12000 * k, "feat:net-attrs": 8000 * k,
+        "text:non-ascii-labels": 2800 * k, "text:non-ascii-labels-in-single-byte-encoding": 1200 * k, "text:hash-in-labels": 800 * k,
+        "tempdirs-removed": sum(plan(tier).values()),
     })
     return f
 
 
 # -------------------------------------------------------------------------------------
+REWRITTEN = "rewritten-path"                          # a different network written to a path that was written and read before
+REREAD = "read-again-after-first-result-changed"      # the same file read twice, the first result defaced in between
+
+
 class Ctx:
     def __init__(self, mon, tmp):
         self.mon, self.tmp = mon, tmp
@@ -99,29 +122,46 @@ class Ctx:
         info["src"] = O.obs(net)
         return net, info
 
+    def pair(self, rng, cls, **kw):
+        """Two networks of one class and one label family: the second one is written over the first."""
+        a = self.source(rng, cls, **kw)
+        if a is None:
+            return None
+        kw = dict(kw, nkind=a[1]["nkind"], ekind=a[1]["ekind"])
+        b = self.source(rng, cls, **kw)
+        if b is None:
+            return None
+        return a, b
+
     def witness(self, infos, files=(), extra=""):
         out = []
         for info in infos:
             out.append("construction:\n  " + "\n  ".join(info["hist"]) + f"\nwritten: {info['src'].brief()}")
         for p in files:
             try:
-                with open(p, encoding="utf-8") as fh:
+                with open(p, encoding="utf-8", errors="replace") as fh:
                     txt = fh.read()
-                out.append(f"file {os.path.basename(p)}:\n{txt if len(txt) < 900 else txt[:900] + '...'}")
+                out.append(f"file {os.path.basename(p)} (shown as utf-8):\n{txt if len(txt) < 900 else txt[:900] + '...'}")
             except OSError:
                 out.append(f"file {os.path.basename(p)}: <not there>")
         if extra:
             out.append(extra)
         return "\n".join(out)
 
-    def compare(self, reader, trigger, exp, back, clauses, variant, infos, files, count=None):
+    def compare(self, reader, trigger, exp, back, clauses, variant, infos, files, count=None, stale=None):
+        """stale: what the path held before it was rewritten - a second read that shows exactly that is reported under one clause."""
         mon = self.mon
         got = O.obs(back)
         mon.ev()
         mon.note(count or f"{reader}:{exp.cls if 'class' in clauses else infos[0]['cls']}")
         if exp.inc:
-            mon.nontrivial((reader, variant, exp.cls, sorted(map(repr, exp.inc)), len(exp.nodes), len(exp.edges)))
-        for clause, detail in O.diff(exp, got, clauses):
+            mon.nontrivial((reader, trigger in (REWRITTEN, REREAD) and trigger, variant, exp.cls, sorted(map(repr, exp.inc)), len(exp.nodes), len(exp.edges)))
+        d = O.diff(exp, got, clauses)
+        if d and stale is not None and not O.diff(stale, got, clauses):
+            mon.fail(f"{reader}|{trigger}|stale-result", f"{reader} [{variant}]: the read after rewriting the path returned the network written there before: {d[0][0]}: {d[0][1]}",
+                     self.witness(infos, files, f"read back: {got.brief()}"))
+            return
+        for clause, detail in d:
             mon.fail(f"{reader}|{trigger}|{clause}", f"{reader} [{variant}]: {clause}: {detail}", self.witness(infos, files, f"read back: {got.brief()}"))
 
     def guarded(self, name, trigger, fn, variant, infos, files=()):
@@ -134,100 +174,164 @@ class Ctx:
             self.mon.fail(f"{name}|{trigger}|raises", f"{name} [{variant}] raised {type(exc).__name__}: {exc}", self.witness(infos, files))
             return None
 
+    def session(self, rng, writer, reader, trigger, a, b, write, read, check, variant, files, differs):
+        """write(A) read  [deface the result, read again]  write(B) to the same path, read.
+
+        write(item) / read() call the library; check(back, item, trigger, stale_item) compares.  `a`, `b` are whatever the case
+        writes (a (net, info) pair or a collection); differs = the two must not be indistinguishable to the comparison."""
+        infos_a, infos_b = _infos(a), _infos(b)
+        if self.guarded(writer, trigger, lambda: (write(a), True)[1], variant, infos_a) is None:
+            return
+        back = self.guarded(reader, trigger, read, variant, infos_a, files)
+        if back is None:
+            return
+        check(back, a, trigger, None)
+        if rng.random() < 0.35:
+            try:
+                for x in (back.values() if isinstance(back, dict) else [back]):
+                    O.scribble(x)
+                ok = True
+            except Exception as exc:
+                if O.is_watchdog(exc):
+                    raise
+                ok = False
+            if ok:
+                self.mon.note(f"reread:{reader}")
+                again = self.guarded(reader, REREAD, read, variant, infos_a, files)
+                if again is not None:
+                    check(again, a, REREAD, None)
+        if b is None:
+            return
+        self.mon.note(f"rewrite:{reader}:" + ("distinct" if differs else "same-content"))
+        if self.guarded(writer, REWRITTEN, lambda: (write(b), True)[1], variant, infos_b) is None:
+            return
+        back = self.guarded(reader, REWRITTEN, read, variant, infos_b, files)
+        if back is not None:
+            check(back, b, REWRITTEN, a)
+
+
+def _infos(item):
+    if item is None:
+        return []
+    if isinstance(item, tuple) and isinstance(item[1], dict) and "hist" in item[1]:
+        return [item[1]]
+    return [i for _, i in item["nets"]]
+
 
 def _tn(t):
     return getattr(t, "__name__", None)
 
 
+def _differ(ia, ib):
+    return ia["src"].brief() != ib["src"].brief()
+
+
 # ---- HIF ---------------------------------------------------------------------------------
 def case_hif(c, idx, rng):
     cls = O.CLASSES[idx % 3]
-    s = c.source(rng, cls)
-    if s is None:
+    ab = c.pair(rng, cls)
+    if ab is None:
         return
-    net, info = s
-    src = info["src"]
-    nt, nmap = O.hif_casts(rng, src.nodes, c.mon)
-    et, emap = O.hif_casts(rng, src.edges, c.mon)
-    if O.collides([nmap(x) for x in src.nodes]) or O.collides([emap(x) for x in src.edges]):
+    a, b = ab
+    nodes = a[1]["src"].nodes + b[1]["src"].nodes
+    edges = a[1]["src"].edges + b[1]["src"].edges
+    nt, nmap = O.hif_casts(rng, nodes, c.mon)
+    et, emap = O.hif_casts(rng, edges, c.mon)
+    if any(O.collides([nmap(x) for x in i["src"].nodes]) or O.collides([emap(x) for x in i["src"].edges]) for i in (a[1], b[1])):
         nt, nmap, et, emap = None, O.ident, None, O.ident
     variant = f"nodetype={_tn(nt)} edgetype={_tn(et)}"
     path = os.path.join(c.tmp, "net.hif.json")
-    if c.guarded("write_hif", cls, lambda: (xgi.write_hif(net, path), True)[1], variant, [info]) is None:
-        return
-    back = c.guarded("read_hif", cls, lambda: xgi.read_hif(path, nodetype=nt, edgetype=et), variant, [info], [path])
-    if back is not None:
-        c.compare("read_hif", cls, O.expected(src, nmap, emap), back, O.ALL, variant, [info], [path])
+
+    def check(back, item, trig, stale):
+        c.compare("read_hif", cls if trig == cls else trig, O.expected(item[1]["src"], nmap, emap), back, O.ALL, variant, [item[1]], [path],
+                  stale=O.expected(stale[1]["src"], nmap, emap) if stale else None)
+
+    c.session(rng, "write_hif", "read_hif", cls, a, b, lambda it: xgi.write_hif(it[0], path), lambda: xgi.read_hif(path, nodetype=nt, edgetype=et),
+              check, variant, [path], _differ(a[1], b[1]))
     if idx % 100 == 0:
-        c.mon.sample(info["hist"])
+        c.mon.sample(a[1]["hist"])
 
 
-def _collection(c, rng, classes, same_kinds):
-    n = rng.randint(1, 3)
-    nk = rng.choice(O.NODE_KINDS) if same_kinds else None
-    ek = rng.choice([k for k in O.EID_KINDS if k != "str+auto"]) if same_kinds else None
+def _collection(c, rng, classes, same_kinds, like=None):
+    """like: a collection whose paths (container kind, names, collection_name) and label family the new one reuses."""
+    n = len(like["nets"]) if like else rng.randint(1, 3)
+    nk = like["nk"] if like else (rng.choice(O.NODE_KINDS) if same_kinds else None)
+    ek = like["ek"] if like else (rng.choice([k for k in O.EID_KINDS if k != "str+auto"]) if same_kinds else None)
     nets = []
     for _ in range(n):
         s = c.source(rng, rng.choice(classes), nkind=nk, ekind=ek)
         if s is None:
             return None
         nets.append(s)
-    as_dict = rng.random() < 0.5
-    names = rng.sample(["alpha", "b2", "net_c", "D", "x"], n) if as_dict else list(range(n))
-    cname = rng.choice(("", "coll", "my_data"))
-    return nets, as_dict, names, cname
+    if n >= 2 and rng.random() < 0.2:  # the same object under two names / positions
+        nets[1] = nets[0]
+        c.mon.note("collection:repeated-member")
+    if like:
+        as_dict, names, cname = like["as_dict"], like["names"], like["cname"]
+    else:
+        as_dict = rng.random() < 0.5
+        names = rng.sample(["alpha", "b2", "net_c", "D", "x"], n) if as_dict else list(range(n))
+        cname = rng.choice(("", "coll", "my_data"))
+    arg = {nm: net for nm, (net, _) in zip(names, nets)} if as_dict else [net for net, _ in nets]
+    return {"nets": nets, "as_dict": as_dict, "names": names, "cname": cname, "nk": nk, "ek": ek, "arg": arg, "kind": "dict" if as_dict else "list"}
+
+
+def _coll_differs(a, b):
+    return any(_differ(x[1], y[1]) for x, y in zip(a["nets"], b["nets"]))
 
 
 def case_hif_collection(c, idx, rng):
-    col = _collection(c, rng, O.CLASSES, False)
-    if col is None:
+    a = _collection(c, rng, O.CLASSES, False)
+    if a is None:
         return
-    nets, as_dict, names, cname = col
-    infos = [i for _, i in nets]
-    kind = "dict" if as_dict else "list"
+    b = _collection(c, rng, O.CLASSES, False, like=a)
+    kind, cname, names = a["kind"], a["cname"], a["names"]
     c.mon.note(f"hif-collection:{kind}")
-    variant = f"{kind} of {len(nets)} collection_name={cname!r}"
-    arg = {nm: n for nm, (n, _) in zip(names, nets)} if as_dict else [n for n, _ in nets]
-    if c.guarded("write_hif_collection", kind, lambda: (xgi.write_hif_collection(arg, c.tmp, collection_name=cname), True)[1], variant, infos) is None:
-        return
+    variant = f"{kind} of {len(names)} collection_name={cname!r}"
     main = os.path.join(c.tmp, f"{cname}_collection_information.json")
     files = [main] + [os.path.join(c.tmp, f"{cname}_{nm}.json") for nm in names]
-    back = c.guarded("read_hif_collection", kind, lambda: xgi.read_hif_collection(main), variant, infos, files)
-    if back is None:
-        return
-    _compare_collection(c, "read_hif_collection", kind, back, names, infos, O.ALL, O.ident, O.ident, variant, files)
+
+    def check(back, item, trig, stale):
+        _compare_collection(c, "read_hif_collection", kind, trig, back, names, _infos(item), O.ALL, O.ident, O.ident, variant, files, _infos(stale))
+
+    c.session(rng, "write_hif_collection", "read_hif_collection", kind, a, b, lambda it: xgi.write_hif_collection(it["arg"], c.tmp, collection_name=cname),
+              lambda: xgi.read_hif_collection(main), check, variant, files, b is not None and _coll_differs(a, b))
 
 
-def _compare_collection(c, reader, kind, back, names, infos, clauses, nmap, emap, variant, files):
+def _compare_collection(c, reader, kind, trig, back, names, infos, clauses, nmap, emap, variant, files, stale_infos):
     c.mon.ev()
     want = [str(nm) for nm in names]
+    second = trig in (REWRITTEN, REREAD)
     if not isinstance(back, dict) or sorted(back) != sorted(want):
-        c.mon.fail(f"{reader}|{kind}|members-of-collection", f"{reader} [{variant}]: expected the datasets {want}, got {sorted(back) if isinstance(back, dict) else type(back).__name__}",
+        c.mon.fail(f"{reader}|{trig if second else kind}|members-of-collection", f"{reader} [{variant}]: expected the datasets {want}, got {sorted(back) if isinstance(back, dict) else type(back).__name__}",
                    c.witness(infos, files[:1]))
         return
-    for nm, info in zip(want, infos):
+    for k, (nm, info) in enumerate(zip(want, infos)):
         c.mon.note("collection:members-read")
-        c.compare(reader, info["cls"], O.expected(info["src"], nmap, emap), back[nm], clauses, variant, [info], [files[0], files[1 + want.index(nm)]], count=f"{reader}:{kind}")
+        stale = O.expected(stale_infos[k]["src"], nmap, emap) if stale_infos else None
+        c.compare(reader, trig if second else info["cls"], O.expected(info["src"], nmap, emap), back[nm], clauses, variant, [info], [files[0], files[1 + k]],
+                  count=f"{reader}:{kind}", stale=stale)
 
 
 # ---- JSON (standard dict) --------------------------------------------------------------------
 def case_json(c, idx, rng):
     if idx % 20 == 7:
         return _json_collide(c, rng)
-    s = c.source(rng, "Hypergraph")
-    if s is None:
+    ab = c.pair(rng, "Hypergraph")
+    if ab is None:
         return
-    net, info = s
-    src = info["src"]
-    nt, nmap = O.casts(rng, src.nodes, c.mon)
-    et, emap = O.casts(rng, src.edges, c.mon)
+    a, b = ab
+    nt, nmap = O.casts(rng, a[1]["src"].nodes + b[1]["src"].nodes, c.mon)
+    et, emap = O.casts(rng, a[1]["src"].edges + b[1]["src"].edges, c.mon)
     variant = f"nodetype={_tn(nt)} edgetype={_tn(et)}"
     path = os.path.join(c.tmp, "net.json")
-    if c.guarded("write_json", "Hypergraph", lambda: (xgi.write_json(net, path), True)[1], variant, [info]) is None:
-        return
-    back = c.guarded("read_json", "Hypergraph", lambda: xgi.read_json(path, nodetype=nt, edgetype=et), variant, [info], [path])
-    if back is not None:
-        c.compare("read_json", "Hypergraph", O.expected(src, nmap, emap), back, O.ALL, variant, [info], [path])
+
+    def check(back, item, trig, stale):
+        c.compare("read_json", trig, O.expected(item[1]["src"], nmap, emap), back, O.ALL, variant, [item[1]], [path],
+                  stale=O.expected(stale[1]["src"], nmap, emap) if stale else None)
+
+    c.session(rng, "write_json", "read_json", "Hypergraph", a, b, lambda it: xgi.write_json(it[0], path), lambda: xgi.read_json(path, nodetype=nt, edgetype=et),
+              check, variant, [path], _differ(a[1], b[1]))
 
 
 def _json_collide(c, rng):
@@ -260,112 +364,164 @@ def _json_collide(c, rng):
 
 
 def case_json_collection(c, idx, rng):
-    col = _collection(c, rng, ("Hypergraph",), True)
-    if col is None:
+    a = _collection(c, rng, ("Hypergraph",), True)
+    if a is None:
         return
-    nets, as_dict, names, cname = col
-    infos = [i for _, i in nets]
-    kind = "dict" if as_dict else "list"
+    b = _collection(c, rng, ("Hypergraph",), True, like=a)
+    kind, cname, names = a["kind"], a["cname"], a["names"]
     c.mon.note(f"json-collection:{kind}")
-    allnodes = [n for i in infos for n in i["src"].nodes]
-    alledges = [e for i in infos for e in i["src"].edges]
-    nt, nmap = O.casts(rng, allnodes, c.mon)
-    et, emap = O.casts(rng, alledges, c.mon)
-    variant = f"{kind} of {len(nets)} collection_name={cname!r} nodetype={_tn(nt)} edgetype={_tn(et)}"
-    arg = {nm: n for nm, (n, _) in zip(names, nets)} if as_dict else [n for n, _ in nets]
-    if c.guarded("write_json", kind, lambda: (xgi.write_json(arg, c.tmp, collection_name=cname), True)[1], variant, infos) is None:
-        return
+    both = _infos(a) + _infos(b)
+    nt, nmap = O.casts(rng, [n for i in both for n in i["src"].nodes], c.mon)
+    et, emap = O.casts(rng, [e for i in both for e in i["src"].edges], c.mon)
+    variant = f"{kind} of {len(names)} collection_name={cname!r} nodetype={_tn(nt)} edgetype={_tn(et)}"
     pre = cname + "_" if cname else ""
     main = os.path.join(c.tmp, f"{pre}collection_information.json")
     files = [main] + [os.path.join(c.tmp, f"{pre}{nm}.json") for nm in names]
-    back = c.guarded("read_json", kind, lambda: xgi.read_json(main, nodetype=nt, edgetype=et), variant, infos, files)
-    if back is None:
-        return
-    _compare_collection(c, "read_json", kind, back, names, infos, O.ALL, nmap, emap, variant, files)
+
+    def check(back, item, trig, stale):
+        _compare_collection(c, "read_json", kind, trig, back, names, _infos(item), O.ALL, nmap, emap, variant, files, _infos(stale))
+
+    c.session(rng, "write_json", "read_json", kind, a, b, lambda it: xgi.write_json(it["arg"], c.tmp, collection_name=cname),
+              lambda: xgi.read_json(main, nodetype=nt, edgetype=et), check, variant, files, b is not None and _coll_differs(a, b))
 
 
 # ---- text formats -------------------------------------------------------------------------------
-def _text_source(c, idx, rng, **kw):
+
+
+def _text_options(c, rng, fmt):
+    enc = rng.choice(ENCODINGS)
+    cm = rng.choice(COMMENTS)
+    c.mon.note(f"{fmt}:encoding:{enc}")
+    c.mon.note(f"{fmt}:comments:{cm}")
+    ekw = {} if enc is None else {"encoding": enc}
+    ckw = {} if cm == "default" else {"comments": cm}
+    return enc, cm, ekw, ckw
+
+
+def _text_pair(c, idx, rng, cm, enc, **kw):
+    """Two networks for one text file: labels never contain whitespace or a delimiter; non-ASCII labels (all of them representable in
+    latin-1 / cp1252 / utf-8) in 30 % of the cases; labels containing '#' only where the reader is told another comment token."""
     cls = UND[idx % 2]
-    ekind = rng.choice([k for k in O.EID_KINDS])
-    s = c.source(rng, cls, empties=False, ekind=ekind, attrs=rng.random() < 0.3, **kw)
-    if s is not None and (O.collides(s[1]["src"].nodes) or O.collides(s[1]["src"].edges)):
-        c.mon.note("discarded:labels-collide-as-text")  # e.g. the explicit ID '3' next to the automatic ID 3: outside 'labels that survive the cast'
+    r = rng.random()
+    if cm in ("%", "//", None) and r < 0.3:
+        nkind = "hash"
+    elif r < 0.55:
+        nkind = "latin"
+    else:
+        nkind = rng.choice(O.NODE_KINDS)
+    ekind = "latin" if rng.random() < 0.25 else rng.choice(O.EID_KINDS)
+    ab = c.pair(rng, cls, empties=False, nkind=nkind, ekind=ekind, attrs=rng.random() < 0.3, **kw)
+    if ab is None:
         return None
-    return s
+    for _, i in ab:
+        if O.collides(i["src"].nodes) or O.collides(i["src"].edges):
+            c.mon.note("discarded:labels-collide-as-text")  # e.g. the explicit ID '3' next to the automatic ID 3: outside 'labels that survive the cast'
+            return None
+    if any(not str(x).isascii() for _, i in ab for x in i["src"].nodes + i["src"].edges):
+        c.mon.note("text:non-ascii-labels")
+        if enc in ("latin-1", "cp1252"):
+            c.mon.note("text:non-ascii-labels-in-single-byte-encoding")
+    if nkind == "hash":
+        c.mon.note("text:hash-in-labels")
+    return ab
 
 
 def _delim(rng, idx, pool=DELIMS):
     return pool[(idx // 2) % len(pool)]
 
 
+def _into(rng, choices):
+    into = rng.choice(choices)
+    if into is None:
+        return into, {}
+    if into.endswith("()"):
+        return into, {"create_using": getattr(xgi, into[:-2])()}
+    return into, {"create_using": getattr(xgi, into)}
+
+
 def case_edgelist(c, idx, rng):
-    s = _text_source(c, idx, rng)
-    if s is None:
+    enc, cm, ekw, ckw = _text_options(c, rng, "edgelist")
+    ab = _text_pair(c, idx, rng, cm, enc)
+    if ab is None:
         return
-    net, info = s
-    src = info["src"]
-    cls = src.cls
+    a, b = ab
+    cls = a[1]["cls"]
     d = _delim(rng, idx)
     c.mon.note(f"edgelist:delim:{DNAME[d]}")
-    nt, nmap = O.casts(rng, src.nodes, c.mon)
+    nt, nmap = O.casts(rng, a[1]["src"].nodes + b[1]["src"].nodes, c.mon)
     rd = None if (d in (" ", "\t") and rng.random() < 0.3) else d
-    into = rng.choice((None, "Hypergraph", cls))
-    variant = f"delimiter={d!r} read-delimiter={rd!r} nodetype={_tn(nt)} create_using={into}"
+    into = rng.choice((None, "Hypergraph", "Hypergraph()", cls))
+    variant = f"delimiter={d!r} read-delimiter={rd!r} nodetype={_tn(nt)} create_using={into} encoding={enc!r} comments={cm!r}"
     path = os.path.join(c.tmp, "edges.txt")
     wkw = {} if (d == " " and rng.random() < 0.5) else {"delimiter": d}
-    if c.guarded("write_edgelist", cls, lambda: (xgi.write_edgelist(net, path, **wkw), True)[1], variant, [info]) is None:
-        return
-    rkw = {"create_using": getattr(xgi, into)} if into else {}
-    back = c.guarded("read_edgelist", cls, lambda: xgi.read_edgelist(path, delimiter=rd, nodetype=nt, **rkw), variant, [info], [path])
-    if back is None:
-        return
-    if into == "SimplicialComplex":
-        got = O.obs(back)
-        c.mon.ev()
-        c.mon.note(f"read_edgelist:{cls}")
-        fam_s = {frozenset(map(nmap, m)) for m in src.mem.values()}
-        fam_g = set(got.mem.values())
-        if fam_s != fam_g or len(got.mem) != len(fam_g):
-            c.mon.fail("read_edgelist|SimplicialComplex-into-SimplicialComplex|simplices", f"[{variant}] family of member sets differs: {O._sd(fam_s, fam_g)}",
-                       c.witness([info], [path], f"read back: {got.brief()}"))
-        return
-    epos = {e: i for i, e in enumerate(src.edges)}
-    exp = O.expected(src, nmap, epos.__getitem__, cls="Hypergraph")
-    c.compare("read_edgelist", cls, exp, back, O.INC, variant, [info], [path], count=f"read_edgelist:{cls}")
+
+    def read():
+        rkw = {} if into is None else {"create_using": getattr(xgi, into[:-2])() if into.endswith("()") else getattr(xgi, into)}
+        return xgi.read_edgelist(path, delimiter=rd, nodetype=nt, **rkw, **ekw, **ckw)
+
+    def check(back, item, trig, stale):
+        src = item[1]["src"]
+        if into == "SimplicialComplex":
+            got = O.obs(back)
+            c.mon.ev()
+            c.mon.note(f"read_edgelist:{cls}")
+            fam_s = {frozenset(map(nmap, m)) for m in src.mem.values()}
+            fam_g = set(got.mem.values())
+            if fam_s != fam_g or len(got.mem) != len(fam_g):
+                c.mon.fail(f"read_edgelist|{'SimplicialComplex-into-SimplicialComplex' if trig == cls else trig}|simplices", f"[{variant}] family of member sets differs: {O._sd(fam_s, fam_g)}",
+                           c.witness([item[1]], [path], f"read back: {got.brief()}"))
+            return
+
+        def exp(o):
+            epos = {e: i for i, e in enumerate(o.edges)}
+            return O.expected(o, nmap, epos.__getitem__, cls="Hypergraph")
+
+        c.compare("read_edgelist", trig, exp(src), back, O.INC, variant, [item[1]], [path], count=f"read_edgelist:{cls}", stale=exp(stale[1]["src"]) if stale else None)
+
+    c.session(rng, "write_edgelist", "read_edgelist", cls, a, b, lambda it: xgi.write_edgelist(it[0], path, **wkw, **ekw), read, check, variant, [path],
+              _differ(a[1], b[1]))
 
 
 def case_bipartite(c, idx, rng):
-    s = _text_source(c, idx, rng)
-    if s is None:
+    enc, cm, ekw, ckw = _text_options(c, rng, "bipartite")
+    ab = _text_pair(c, idx, rng, cm, enc)
+    if ab is None:
         return
-    net, info = s
-    src = info["src"]
-    cls = src.cls
+    a, b = ab
+    cls = a[1]["cls"]
     d = _delim(rng, idx)
     c.mon.note(f"bipartite:delim:{DNAME[d]}")
     dual = rng.random() < 0.4
     if dual:
         c.mon.note("bipartite:dual")
     # with dual=True the reader takes column 1 (our nodes) as edge IDs and column 2 (our edge IDs) as node IDs
-    first, second = (src.nodes, src.edges)
-    t1, m1 = O.casts(rng, first, c.mon)
-    t2, m2 = O.casts(rng, second, c.mon)
+    t1, m1 = O.casts(rng, a[1]["src"].nodes + b[1]["src"].nodes, c.mon)
+    t2, m2 = O.casts(rng, a[1]["src"].edges + b[1]["src"].edges, c.mon)
     kw = {"nodetype": t2, "edgetype": t1} if dual else {"nodetype": t1, "edgetype": t2}
     rd = None if (d in (" ", "\t") and rng.random() < 0.3) else d
-    variant = f"delimiter={d!r} read-delimiter={rd!r} nodetype={_tn(kw['nodetype'])} edgetype={_tn(kw['edgetype'])} dual={dual}"
+    into = rng.choice((None, None, "Hypergraph", "Hypergraph()"))
+    variant = f"delimiter={d!r} read-delimiter={rd!r} nodetype={_tn(kw['nodetype'])} edgetype={_tn(kw['edgetype'])} dual={dual} create_using={into} encoding={enc!r} comments={cm!r}"
     path = os.path.join(c.tmp, "bip.txt")
     wkw = {} if (d == " " and rng.random() < 0.5) else {"delimiter": d}
-    if c.guarded("write_bipartite_edgelist", cls, lambda: (xgi.write_bipartite_edgelist(net, path, **wkw), True)[1], variant, [info]) is None:
-        return
-    back = c.guarded("read_bipartite_edgelist", cls, lambda: xgi.read_bipartite_edgelist(path, delimiter=rd, dual=dual, **kw), variant, [info], [path])
-    if back is None:
-        return
-    exp = O.expected(src, m1, m2, cls="Hypergraph")
-    if dual:
-        swapped = {(e, n) for n, e in exp.inc}
-        exp.inc, exp.inc2 = swapped, swapped
-    c.compare("read_bipartite_edgelist", "dual" if dual else cls, exp, back, O.INC, variant, [info], [path], count=f"read_bipartite_edgelist:{cls}")
+    base = "dual" if dual else cls
+
+    def read():
+        rkw = {} if into is None else {"create_using": getattr(xgi, into[:-2])() if into.endswith("()") else getattr(xgi, into)}
+        return xgi.read_bipartite_edgelist(path, delimiter=rd, dual=dual, **kw, **rkw, **ekw, **ckw)
+
+    def exp(o):
+        e = O.expected(o, m1, m2, cls="Hypergraph")
+        if dual:
+            swapped = {(x, n) for n, x in e.inc}
+            e.inc, e.inc2 = swapped, swapped
+        return e
+
+    def check(back, item, trig, stale):
+        c.compare("read_bipartite_edgelist", trig, exp(item[1]["src"]), back, O.INC, variant, [item[1]], [path], count=f"read_bipartite_edgelist:{cls}",
+                  stale=exp(stale[1]["src"]) if stale else None)
+
+    c.session(rng, "write_bipartite_edgelist", "read_bipartite_edgelist", base, a, b, lambda it: xgi.write_bipartite_edgelist(it[0], path, **wkw, **ekw), read, check,
+              variant, [path], _differ(a[1], b[1]))
 
 
 def _shaped(c, rng, cls, shape):
@@ -397,44 +553,63 @@ def _shaped(c, rng, cls, shape):
     return net, {"hist": hist, "cls": cls, "feats": set()}, shape
 
 
-def case_incidence(c, idx, rng):
-    cls = UND[idx % 2]
-    shape = (SHAPES + ("general", "general"))[(idx // 2) % 6]
+def _matrix_net(c, rng, cls, shape):
     if shape == "general":
         s = c.source(rng, cls, empties=True, min_edges=1, attrs=False)
         if s is None:
-            return
+            return None
         net, info = s
     else:
         net, info, shape = _shaped(c, rng, cls, shape)
         if not O.valid(net):
             c.mon.note("invalid-start-state")
-            return
+            return None
         info["src"] = O.obs(net)
-    src = info["src"]
-    n, m = len(src.nodes), len(src.edges)
-    if n == 0 or m == 0:
+    if len(info["src"].nodes) == 0 or len(info["src"].edges) == 0:
         c.mon.note("discarded:empty-matrix")
+        return None
+    return net, info
+
+
+def _shape_of(src):
+    n, m = len(src.nodes), len(src.edges)
+    return "single-entry" if (n, m) == (1, 1) else "single-row" if n == 1 else "single-column" if m == 1 else "general"
+
+
+def case_incidence(c, idx, rng):
+    enc, cm, ekw, ckw = _text_options(c, rng, "incidence")
+    cls = UND[idx % 2]
+    a = _matrix_net(c, rng, cls, (SHAPES + ("general", "general"))[(idx // 2) % 6])
+    if a is None:
         return
-    if shape == "general":  # name the trigger class by what the file looks like
-        shape = "single-entry" if (n, m) == (1, 1) else "single-row" if n == 1 else "single-column" if m == 1 else "general"
+    b = _matrix_net(c, rng, cls, rng.choice(SHAPES + ("general", "general")))  # whatever shape: the path is what is reused
+    src = a[1]["src"]
+    shape = _shape_of(src)  # name the trigger class by what the file looks like
     c.mon.note(f"incidence:shape:{shape}")
     d = DELIMS[(idx // 12) % 5]
     c.mon.note(f"incidence:delim:{DNAME[d]}")
     rd = None if (d in (" ", "\t") and rng.random() < 0.3) else d
-    variant = f"{n} x {m} delimiter={d!r} read-delimiter={rd!r}"
+    into = rng.choice((None, None, "Hypergraph", "Hypergraph()"))
+    variant = f"{len(src.nodes)} x {len(src.edges)} delimiter={d!r} read-delimiter={rd!r} create_using={into} encoding={enc!r} comments={cm!r}"
     path = os.path.join(c.tmp, "inc.txt")
     wkw = {} if (d == " " and rng.random() < 0.5) else {"delimiter": d}
     trig = {"single-entry": "single-row"}.get(shape, shape if shape != "general" else cls)
-    if c.guarded("write_incidence_matrix", trig, lambda: (xgi.write_incidence_matrix(net, path, **wkw), True)[1], variant, [info]) is None:
-        return
-    back = c.guarded("read_incidence_matrix", trig, lambda: xgi.read_incidence_matrix(path, delimiter=rd), variant, [info], [path])
-    if back is None:
-        return
-    npos = {v: i for i, v in enumerate(src.nodes)}
-    epos = {e: i for i, e in enumerate(src.edges)}
-    exp = O.expected(src, npos.__getitem__, epos.__getitem__, cls="Hypergraph")
-    c.compare("read_incidence_matrix", trig, exp, back, O.INC, variant, [info], [path], count=f"read_incidence_matrix:{cls}")
+
+    def read():
+        rkw = {} if into is None else {"create_using": getattr(xgi, into[:-2])() if into.endswith("()") else getattr(xgi, into)}
+        return xgi.read_incidence_matrix(path, delimiter=rd, **rkw, **ekw, **ckw)
+
+    def exp(o):
+        npos = {v: i for i, v in enumerate(o.nodes)}
+        epos = {e: i for i, e in enumerate(o.edges)}
+        return O.expected(o, npos.__getitem__, epos.__getitem__, cls="Hypergraph")
+
+    def check(back, item, t, stale):
+        c.compare("read_incidence_matrix", t, exp(item[1]["src"]), back, O.INC, variant, [item[1]], [path], count=f"read_incidence_matrix:{cls}",
+                  stale=exp(stale[1]["src"]) if stale else None)
+
+    c.session(rng, "write_incidence_matrix", "read_incidence_matrix", trig, a, b, lambda it: xgi.write_incidence_matrix(it[0], path, **wkw, **ekw), read, check,
+              variant, [path], b is not None and exp(a[1]["src"]).inc != exp(b[1]["src"]).inc)
 
 
 CASES = {
